@@ -250,32 +250,49 @@ theorem pruned_instances_answer_nothing (o : Opts) (hw : 0 < o.maxWanted) (hd : 
 the only change it can make is replacing a placeholder by the chain it stands for. -/
 theorem unsolicited_keeps_wanted (s : State) (p : Progress) (now : Int) (m : Option Msg) (i : Nat) (K : Key) :
     (W (feed s p now m).1 i).peek K = (W s i).peek K ∨
-    ((W s i).peek K = some .placeholder ∧ (W (feed s p now m).1 i).peek K = some (.chain K)) := by
-  rcases feed_W s p now m i with e | ⟨msg, _, _, _, e⟩
-  · left; rw [e]
-  · rw [e]; exact discFold_w_peek _ _ _ K
+    ((W s i).peek K = some .placeholder ∧ (W (feed s p now m).1 i).peek K = some (.chain K)) :=
+  feed_keeps s p now m i K
 
 /-- A discovery matching a placeholder lands in the wanted cache. -/
 theorem discovery_fills_placeholder (s : State) (p : Progress) (now : Int) (msg : Msg)
     (hacc : (feed s p now (some msg)).2 = .accept) (q : Key) (hq : q ∈ prefixes (chainIds msg.chain))
     (hp : (W s msg.inst).peek q = some .placeholder) :
-    (W (feed s p now (some msg)).1 msg.inst).peek q = some (.chain q) := by
-  rcases feed_cases s p now (some msg) with ⟨msg', hm, _, e⟩ | ⟨_, e2⟩
-  · cases hm
-    obtain ⟨_, hW, _⟩ := cacheAsDiscovered_local s msg.inst (chainIds msg.chain)
-    rw [e]; show (W (cacheAsDiscovered s msg.inst (chainIds msg.chain)) msg.inst).peek q = _
-    rw [hW msg.inst]; simp only [if_true]
-    exact discFold_fills _ _ _ hq hp
-  · exact absurd (e2 hacc) (by simp)
+    (W (feed s p now (some msg)).1 msg.inst).peek q = some (.chain q) :=
+  feed_fills s p now msg hacc q hq hp
+
+/-- **Ask, receive, flood, ask again.** From any reachable state: look a key up (miss or hit), let
+ANY burst of deliveries pass, let a broadcast containing that key as a prefix be admitted for that
+instance, let ANY further burst of deliveries pass (floods of any size, any content, accepted or
+not): the lookup then returns the chain. Unsolicited traffic alone can never evict a key that was
+asked for. -/
+theorem wanted_survives_any_flood (o : Opts) (hw : 0 < o.maxWanted) (hd : 0 < o.maxDiscovered) (ops : List Op)
+    (i : Nat) (K : Key) (hK : K ≠ []) (fs₁ fs₂ : List (Progress × Int × Option Msg))
+    (p : Progress) (now : Int) (msg : Msg) (hinst : msg.inst = i) (hpre : K ∈ prefixes (chainIds msg.chain))
+    (hacc : (feed (feeds (getChain (run (init o) ops) i K).1 fs₁) p now (some msg)).2 = .accept) :
+    (getChain (feeds (feed (feeds (getChain (run (init o) ops) i K).1 fs₁) p now (some msg)).1 fs₂) i K).2.1
+      = some K :=
+  asked_delivered_flooded o hw hd ops i K hK fs₁ fs₂ p now msg hinst hpre hacc
+
+/-- **After a node admits a chain broadcast, that chain and every prefix can be retrieved by key.**
+For a chain no longer than the discovered capacity none of whose prefixes has been seen or asked for
+at that instance since the last prune, in any reachable state: right after admission every prefix
+lookup returns that prefix. (`admitted_retrievable` covers re-announced and older keys, `wanted_…`
+the solicited ones.) -/
+theorem fresh_admission_retrievable (o : Opts) (hw : 0 < o.maxWanted) (hd : 0 < o.maxDiscovered) (ops : List Op)
+    (p : Progress) (now : Int) (msg : Msg)
+    (hacc : (feed (history o ops).1 p now (some msg)).2 = .accept)
+    (hfresh : ∀ q ∈ prefixes (chainIds msg.chain),
+      (history o ops).2.w msg.inst q = none ∧ (history o ops).2.d msg.inst q = none)
+    (hlen : (chainIds msg.chain).length ≤ o.maxDiscovered) :
+    ∀ q ∈ prefixes (chainIds msg.chain),
+      (getChain (feed (history o ops).1 p now (some msg)).1 msg.inst q).2.1 = some q :=
+  fresh_admission o hw hd ops p now msg hacc hfresh hlen
+
+/-- the prefixes of a chain are exactly its non-empty initial segments -/
+theorem prefixes_exact (c p : Chain) : p ∈ prefixes c ↔ (p <+: c ∧ p ≠ []) :=
+  ⟨fun h => ⟨prefix_of_mem_prefixes h, prefixes_ne_nil h⟩, fun h => mem_prefixes_of_prefix h.1 h.2⟩
 
 /-! ## the defect of the pinned tree (S6), as a witness -/
-
-private def k12 : Key := [1, 2]
-private def okTip (id : Nat) (e : Int) : TipD := ⟨id, e, 5, 38⟩
-private def s6ops : List Op :=
-  [ .get 6 k12,
-    .feed ⟨6, none⟩ 1000 (some ⟨6, [okTip 1 1, okTip 2 2], 1000⟩),
-    .feed ⟨6, none⟩ 1000 (some ⟨6, [okTip 1 1, okTip 3 3], 1000⟩) ]
 
 /-- With `wanted` fetched from the discovered map (as the pinned tree did), the history
 *ask K, receive K, receive one unsolicited chain* (discovered capacity 1) loses K although it was asked
@@ -301,6 +318,21 @@ example : let h := history ⟨2, 3, 3, 10000⟩ [.feed ⟨6, some [1]⟩ 1000 (s
 example : let h := history ⟨2, 2, 3, 10000⟩ [.feed ⟨6, some [1]⟩ 1000 (some ⟨6, [okTip 1 1, okTip 2 2, okTip 3 3], 995⟩)]
     mustFindD h.2 6 [1, 2, 3] = false ∧ (getChain h.1 6 [1, 2, 3]).2.1 = none ∧
     (getChain h.1 6 [1, 2]).2.1 = some [1, 2] := by decide
+
+/-- `wanted_survives_any_flood` with hypotheses met (capacities 1/1, two unsolicited chains after) -/
+example : let s1 := (getChain (run (init ⟨1, 1, 3, 10000⟩) []) 6 [1, 2]).1
+    let m : Msg := ⟨6, [okTip 1 1, okTip 2 2], 1000⟩
+    (feed (feeds s1 []) ⟨6, none⟩ 1000 (some m)).2 = .accept ∧ [1, 2] ∈ prefixes (chainIds m.chain) ∧
+    (getChain (feeds (feed (feeds s1 []) ⟨6, none⟩ 1000 (some m)).1
+      [(⟨6, none⟩, 1000, some ⟨6, [okTip 1 1, okTip 3 3], 1000⟩), (⟨6, none⟩, 1000, some ⟨6, [okTip 4 1], 1000⟩)]) 6 [1, 2]).2.1
+      = some [1, 2] := by decide
+
+/-- `fresh_admission_retrievable` with hypotheses met after a non-trivial history -/
+example : let ops : List Op := [.get 6 [9], .bcast 6 [7, 8], .prune 3]
+    let m : Msg := ⟨6, [okTip 1 1, okTip 2 2], 1000⟩
+    (feed (history ⟨2, 2, 3, 10000⟩ ops).1 ⟨6, none⟩ 1000 (some m)).2 = .accept ∧
+    (∀ q ∈ prefixes (chainIds m.chain), (history ⟨2, 2, 3, 10000⟩ ops).2.w 6 q = none ∧
+      (history ⟨2, 2, 3, 10000⟩ ops).2.d 6 q = none) := by decide
 
 /-- validator: each reason occurs -/
 example : validate ⟨2, 2, 3, 10⟩ ⟨6, some [1]⟩ 1000 none = .reject .undecodable ∧
